@@ -49,16 +49,25 @@ type TInner struct {
 	Y string
 }
 type TRoot struct {
-	M TMap
-	L []string
-	S TInner
+	M  TMap
+	L  []string
+	S  TInner
+	ML TMapL
+}
+
+// TMapL is a typed map whose values are typed lists.
+type TMapL struct {
+	Keys   []string
+	Values map[string][]string
 }
 
 var typedTS = func() *schema.TypeSystem {
 	ts, err := ipld.LoadSchemaBytes([]byte(`
 type TMap {String:Int}
 type TInner struct { X Int  Y String }
-type TRoot struct { M TMap  L [String]  S TInner }`))
+type TStrs [String]
+type TMapL {String:TStrs}
+type TRoot struct { M TMap  L [String]  S TInner  ML TMapL }`))
 	if err != nil {
 		panic(err)
 	}
@@ -699,6 +708,12 @@ func (S) RunTape(t *sim.Tape, st *sim.Stats, keepLog bool) *sim.Outcome {
 			for i, n := 0, t.Choice(4, "tr.nlist"); i < n; i++ {
 				r.L = append(r.L, []string{"p", "q", "rr"}[t.Choice(3, "tr.item")])
 			}
+			r.ML = TMapL{Values: map[string][]string{}}
+			for i, n := 0, 1+t.Choice(3, "tr.nml"); i < n; i++ {
+				k := []string{"u", "v", "w"}[i]
+				r.ML.Keys = append(r.ML.Keys, k)
+				r.ML.Values[k] = []string{"first-of-" + k, "second-of-" + k}[:1+t.Choice(2, "tr.mllen")]
+			}
 			root := bindnode.Wrap(r, typedTS.TypeByName("TRoot"))
 			e, err := w.expand(root, 0)
 			if err != nil {
@@ -877,7 +892,15 @@ func (S) RunTape(t *sim.Tape, st *sim.Stats, keepLog bool) *sim.Outcome {
 					m, l := cl.exp.Get("M"), cl.exp.Get("L")
 					ok = true
 					act = action{}
-					switch t.Choice(8, "x.typed") {
+					ml := cl.exp.Get("ML")
+					switch t.Choice(10, "x.typed") {
+					case 8:
+						// a string inside one of the typed lists that are the values of a typed map
+						k := ml.Keys[t.Choice(len(ml.Keys), "x.tmlkey")]
+						kind, segs, act.repl = 0, []string{"ML", k, "0"}, model.StringV("replaced in a list in a map")
+					case 9:
+						k := ml.Keys[t.Choice(len(ml.Keys), "x.tmlkey")]
+						kind, segs, act.repl = 4, []string{"ML", k, "-"}, model.StringV("appended to a list in a map")
 					case 0:
 						if len(m.Keys) == 0 {
 							ok = false
